@@ -225,7 +225,7 @@ func checkC07(c *Check) {
 		ast.Inspect(fi.Decl.Body, func(n ast.Node) bool {
 			if as, ok := n.(*ast.AssignStmt); ok && len(as.Lhs) == 1 && len(as.Rhs) == 1 {
 				if call, ok := ast.Unparen(as.Rhs[0]).(*ast.CallExpr); ok {
-					if fn := Callee(minfo, call); fn != nil && fn.Name() == "Execute" {
+					if fn := Callee(minfo, call); fn != nil && nameIs(fn, "Execute") {
 						if id, ok := as.Lhs[0].(*ast.Ident); ok {
 							errObj = minfo.Defs[id]
 							if errObj == nil {
@@ -255,7 +255,7 @@ func checkC07(c *Check) {
 			if tests {
 				ast.Inspect(is.Body, func(m ast.Node) bool {
 					if call, ok := m.(*ast.CallExpr); ok {
-						if fn := Callee(minfo, call); fn != nil && fn.Pkg() != nil && fn.Pkg().Name() == "os" && fn.Name() == "Exit" {
+						if fn := Callee(minfo, call); fn != nil && fn.Pkg() != nil && nameIs(fn.Pkg(), "os") && nameIs(fn, "Exit") {
 							okm = true
 						}
 					}
@@ -374,7 +374,7 @@ func checkRanges(c *Check) {
 			t = p.Elem()
 		}
 		nt, ok := t.(*types.Named)
-		if !ok || nt.Obj().Pkg() == nil || nt.Obj().Pkg().Name() != "ast" {
+		if !ok || nt.Obj().Pkg() == nil || !nameIs(nt.Obj().Pkg(), "ast") {
 			return false
 		}
 		st, ok := nt.Underlying().(*types.Struct)
@@ -475,7 +475,7 @@ func checkRanges(c *Check) {
 			t = p.Elem()
 		}
 		nt, ok := t.(*types.Named)
-		return ok && nt.Obj().Name() == "parser" && nt.Obj().Pkg() == pp.Types
+		return ok && nameIs(nt.Obj(), "parser") && nt.Obj().Pkg() == pp.Types
 	}
 	L.ForEachFunc([]string{"src/parser"}, func(fi *FuncInfo) {
 		q := L.QName(fi.Obj)
@@ -490,7 +490,7 @@ func checkRanges(c *Check) {
 					}
 				}
 			case *ast.CallExpr:
-				if fn := Callee(info, s); fn != nil && (fn.Name() == "decrease" || fn.Name() == "retreat") {
+				if fn := Callee(info, s); fn != nil && (nameIs(fn, "decrease") || nameIs(fn, "retreat")) {
 					rewinds = true
 				}
 			}
@@ -510,10 +510,10 @@ func checkRanges(c *Check) {
 			case *ast.CallExpr:
 				if parserRecv(x) {
 					fn := Callee(info, x)
-					if fn != nil && (fn.Name() == "previous" || fn.Name() == "peek" || fn.Name() == "advance") {
+					if fn != nil && (nameIs(fn, "previous") || nameIs(fn, "peek") || nameIs(fn, "advance")) {
 						return x.Pos(), true
 					}
-					if fn != nil && fn.Name() == "peekN" {
+					if fn != nil && nameIs(fn, "peekN") {
 						return token.NoPos, false
 					}
 					return x.Pos(), true // a production: consumed up to here
@@ -583,7 +583,7 @@ func checkRanges(c *Check) {
 		ast.Inspect(fi.Decl.Body, func(n ast.Node) bool {
 			switch x := n.(type) {
 			case *ast.CallExpr:
-				if fn := Callee(info, x); fn != nil && fn.Name() == "NewRange" && fn.Pkg() != nil && fn.Pkg().Name() == "token" && len(x.Args) == 2 {
+				if fn := Callee(info, x); fn != nil && nameIs(fn, "NewRange") && fn.Pkg() != nil && nameIs(fn.Pkg(), "token") && len(x.Args) == 2 {
 					decide("NewRange", x, x.Args[0], x.Args[1])
 				}
 			case *ast.CompositeLit:
@@ -622,7 +622,7 @@ func checkRanges(c *Check) {
 					return true
 				}
 				fn := Callee(finfo, call)
-				if fn == nil || fn.Name() != "New" || fn.Pkg() == nil || fn.Pkg().Name() != "ddperror" {
+				if fn == nil || !nameIs(fn, "New") || fn.Pkg() == nil || !nameIs(fn.Pkg(), "ddperror") {
 					return true
 				}
 				for _, a := range call.Args {
@@ -652,11 +652,11 @@ func handlerHelpers(c *Check) (isRaw func(fi *FuncInfo, e ast.Expr) bool, isWrap
 	// ---------------- R7.1 raw handler provenance ----------------
 	isRaw = func(fi *FuncInfo, e ast.Expr) bool {
 		e = ast.Unparen(e)
-		if v := fieldOf(info, e); v != nil && v.Name() == "ErrorHandler" && v.Pkg() == pp.Types {
+		if v := fieldOf(info, e); v != nil && nameIs(v, "ErrorHandler") && v.Pkg() == pp.Types {
 			return true // parser.Options.ErrorHandler
 		}
-		if id, ok := e.(*ast.Ident); ok && fi.Obj.Name() == "newParser" {
-			if v, ok := info.Uses[id].(*types.Var); ok && v.Name() == "errorHandler" && isHandlerType(v.Type()) && !v.IsField() {
+		if id, ok := e.(*ast.Ident); ok && nameIs(fi.Obj, "newParser") {
+			if v, ok := info.Uses[id].(*types.Var); ok && nameIs(v, "errorHandler") && isHandlerType(v.Type()) && !v.IsField() {
 				return true
 			}
 		}
@@ -687,7 +687,7 @@ func handlerHelpers(c *Check) (isRaw func(fi *FuncInfo, e ast.Expr) bool, isWrap
 			if be, isBin := ast.Unparen(is.Cond).(*ast.BinaryExpr); isBin && be.Op == token.EQL && strings.HasSuffix(L.Src(be.X), ".Level") && strings.HasSuffix(L.Src(be.Y), "LEVEL_ERROR") {
 				for _, st := range is.Body.List {
 					if as, isAs := st.(*ast.AssignStmt); isAs && len(as.Lhs) == 1 && L.Src(as.Rhs[0]) == "true" {
-						if v := fieldOf(info, as.Lhs[0]); v != nil && v.Name() == "errored" {
+						if v := fieldOf(info, as.Lhs[0]); v != nil && nameIs(v, "errored") {
 							ok = true
 						}
 						if id, isId := as.Lhs[0].(*ast.Ident); isId && flagsIntoFaulty[info.Uses[id]] {
@@ -754,7 +754,7 @@ func checkC07HandlerOnly(c *Check) {
 					r1.Decide(inWrapper, q+"|raw handler invoked", p.Pos(), "invoked inside the wrapper that sets errored on LEVEL_ERROR", "the user's handler is invoked outside the wrapper that records error-level diagnostics: an error can be delivered without failing the compilation")
 					return true
 				}
-				if fn := Callee(info, p); fn != nil && fn.Name() == "newParser" {
+				if fn := Callee(info, p); fn != nil && nameIs(fn, "newParser") {
 					r1.OK(q+"|raw handler passed to newParser", p.Pos(), "newParser wraps it (its own uses are checked)")
 					return true
 				}
@@ -806,7 +806,7 @@ func checkC07ImportErrors(c *Check) {
 				return true
 			}
 			fn := Callee(info, call)
-			if fn == nil || fn.Name() != "WalkDir" || fn.Pkg() == nil || (fn.Pkg().Path() != "path/filepath" && fn.Pkg().Path() != "io/fs") {
+			if fn == nil || !nameIs(fn, "WalkDir") || fn.Pkg() == nil || (fn.Pkg().Path() != "path/filepath" && fn.Pkg().Path() != "io/fs") {
 				return true
 			}
 			fl, ok := call.Args[1].(*ast.FuncLit)
@@ -874,7 +874,7 @@ func checkC07RangeAfterRewind(c *Check, r *Rule) {
 		saved := map[types.Object]bool{}
 		ast.Inspect(fi.Decl.Body, func(x ast.Node) bool {
 			if as, ok := x.(*ast.AssignStmt); ok && as.Tok == token.DEFINE && len(as.Lhs) == 1 && len(as.Rhs) == 1 {
-				if sel, ok := ast.Unparen(as.Rhs[0]).(*ast.SelectorExpr); ok && sel.Sel.Name == "cur" {
+				if sel, ok := ast.Unparen(as.Rhs[0]).(*ast.SelectorExpr); ok && selName(info, sel) == "cur" {
 					if id, ok := as.Lhs[0].(*ast.Ident); ok && info.Defs[id] != nil {
 						saved[info.Defs[id]] = true
 					}
@@ -910,7 +910,7 @@ func checkC07RangeAfterRewind(c *Check, r *Rule) {
 			f := false
 			callsIn(nd, func(call *ast.CallExpr) {
 				if fn := Callee(info, call); fn != nil {
-					switch fn.Name() {
+					switch canonName(fn) {
 					case "advance", "matchAny", "matchSeq", "consumeSeq", "consumeAny", "checkAlias", "Search", "expression", "assigneable":
 						f = true
 					}
@@ -954,7 +954,7 @@ func checkC07RangeAfterRewind(c *Check, r *Rule) {
 						return true
 					}
 					fn := Callee(info, call)
-					if fn == nil || fn.Name() != "NewRange" {
+					if fn == nil || !nameIs(fn, "NewRange") {
 						return true
 					}
 					a0 := types.ExprString(call.Args[0])
